@@ -40,20 +40,24 @@ def auxiliaryGraph (weightFactor : Int) (ns : Rat) (g : G) : G := Id.run do
       a := a.modNode w fun nd => { nd with ins := nd.ins ++ [f] }
   pure a
 
+/-- the read-out: x = layer of the auxiliary node minus half the width, then everything shifted so that the leftmost is 0 -/
+def nsReadOut (g aux : G) : G :=
+  let layered := g.layers.toList.flatMap (·.nodes)
+  let xs := layered.map fun n => ((aux.node n).layer : Rat) - (g.node n).w / 2
+  let g := placeAll g [(layered, xs)]
+  let g := growAllH g
+  match xs with
+  | [] => g
+  | x0 :: rest =>
+    let minX := rest.foldl minRat x0
+    { g with nodes := g.nodes.map fun nd => { nd with x := nd.x - minX } }
+
 /-- `phase4.execNetworkSimplex` -/
 def execNsPositioner (thoroughness : Nat) (weightFactor : Int) (ns : Rat) (g : G) : M G := do
   let aux := auxiliaryGraph weightFactor ns g
   let (aux, _, _) ← execNetworkSimplex thoroughness g.nodes.size 2 aux
   -- phase2.Process then builds the layer list of the auxiliary graph: a negative layer would panic there
   let _ ← buildLayers aux
-  let layered := g.layers.toList.flatMap (·.nodes)
-  let xs := layered.map fun n => ((aux.node n).layer : Rat) - (g.node n).w / 2
-  let g := placeAll g [(layered, xs)]
-  let g := growAllH g
-  match xs with
-  | [] => pure g
-  | x0 :: rest =>
-    let minX := rest.foldl minRat x0
-    pure { g with nodes := g.nodes.map fun nd => { nd with x := nd.x - minX } }
+  pure (nsReadOut g aux)
 
 end Autog
